@@ -234,6 +234,9 @@ Definition lazy_factorize (fuel : nat) (a0 : Z) : outcome (list (Z * Z)) :=
       fact_loop fuel a3 acc3 5
   end.
 
+(* fuel that always suffices (proved): one more than the square root of |a| *)
+Definition fact_fuel (a : Z) : nat := S (Z.to_nat (Z.sqrt (Z.abs a))).
+
 (* ------------------------------------------------------------------ the builtin layer (lib.rs, nnum.rs)
    What an integer builtin hands back: an integer, the reciprocal of an integer (`^` with a
    negative exponent builds BigRational::from(r).recip()), or the float NaN (shift by a count
